@@ -30,21 +30,13 @@ def arities (op : OpDecl) : List Nat :=
 
 def nullish (d : Dtype) : Bool := d.withoutConst == .null
 
-/-- D7: tuples on which the current code is known to hit the uniqueness assertion all contain a
-    `NullType` argument; the guard is part of the `_partial` theorem's statement. -/
+/-- totality: resolution ends in an overload or in "no (unique) match" = `DataTypeError`,
+    never in an internal error -/
 def totalAt (t : Trie) (args : List Dtype) : Bool :=
   match resolveTrie t args with
   | .ok _ _ => true
   | .noMatch => true
-  | .ambiguous => args.any nullish
   | .internalError => false
-
-/-- full-strength totality (no guard) -/
-def totalAtFull (t : Trie) (args : List Dtype) : Bool :=
-  match resolveTrie t args with
-  | .ok _ _ => true
-  | .noMatch => true
-  | _ => false
 
 def family (d : Dtype) : Nat :=
   let b := d.withoutConst
@@ -102,34 +94,14 @@ def constParamsRejectAt (s : Sig) (args : List Dtype) : Bool :=
         | .noMatch => true
         | _ => false)
 
-/-- guard for D24 (`shift`'s `const S` parameter is matched as the *bound*, non-const type):
-    the full statement is false for signatures whose const parameter is a type variable that
-    was bound at an earlier, non-const position. -/
-def constTyvarAfterBinding (s : Sig) : Bool :=
-  (List.range s.params.length).any fun i =>
-    match s.params.getD i .null with
-    | .const (.tyvar n) => (s.params.take i).any (fun p => p == .tyvar n)
-    | _ => false
-
-structure OpCheck where
-  total : Bool
-  sized : Bool
-  constAcc : Bool
-  constRej : Bool
-  deriving DecidableEq, Repr
-
-def checkOpWith (tot : Trie → List Dtype → Bool) (rejGuard : Sig → Bool) (op : OpDecl) : Bool :=
+/-- all clauses of C13 for one operator, over every arity it can be called with -/
+def checkOp (op : OpDecl) : Bool :=
   match Trie.build op.sigs with
   | none => false
   | some t =>
     (arities op).all fun k =>
       (tuples (universeFor k) k).all fun args =>
-        tot t args && sizedAcceptedAt t args && constAcceptedAt t args &&
-          op.sigs.all (fun s => rejGuard s || constParamsRejectAt s args)
-
-/-- what is proved of the current tree -/
-def checkOp (op : OpDecl) : Bool := checkOpWith totalAt constTyvarAfterBinding op
-/-- the full-strength statement of C13 (no guards) -/
-def checkOpFull (op : OpDecl) : Bool := checkOpWith totalAtFull (fun _ => false) op
+        totalAt t args && sizedAcceptedAt t args && constAcceptedAt t args &&
+          op.sigs.all (fun s => constParamsRejectAt s args)
 
 end Pdt.C13
